@@ -105,6 +105,7 @@ const GlobalConfig = `[user]
 [gc]
 	auto = 0
 `
+
 // OneShotFilters configures filter.lfs.clean/smudge only (no long-running process filter).
 func OneShotFilters() Opt { return func(e *Env) { e.Extra = append(e.Extra, "VERIF_SBX_ONESHOT=1") } }
 
@@ -410,4 +411,13 @@ func WriteReplace(p string, b []byte, mode os.FileMode) error {
 		return err
 	}
 	return os.Rename(tmp, p)
+}
+
+// FsizeWrap returns a command line that runs prog with RLIMIT_FSIZE set to limit bytes and SIGXFSZ
+// ignored (python ignores it at start-up and ignored signals survive exec): every write(2) that would grow
+// a REGULAR file beyond the limit fails with EFBIG, while pipes and sockets are unaffected. A cheap way to
+// make "disk full / quota" strike at a chosen file size without touching the filter protocol or stdout.
+func FsizeWrap(limit int64, prog string, args ...string) (string, []string) {
+	script := "import os,resource,signal,sys\nn=int(sys.argv[1])\nsignal.signal(signal.SIGXFSZ, signal.SIG_IGN)\nresource.setrlimit(resource.RLIMIT_FSIZE,(n,n))\nos.execvp(sys.argv[2], sys.argv[2:])\n"
+	return "/usr/bin/python3", append([]string{"-c", script, fmt.Sprint(limit), prog}, args...)
 }
